@@ -33,6 +33,27 @@ class Storage:
         self.root = None
 
 
+REQUIRES_GRAD = [False]    # set by a lemma that installs parameters the way `nn.Parameter(W)` does (requires_grad=True)
+_NO_GRAD_RESULT = {"detach", "detach_", "eq", "ne", "lt", "le", "gt", "ge", "argmax", "argmin", "nonzero", "size", "dim", "numel", "item", "tolist",
+                   "isnan", "isfinite", "isinf", "numpy", "__len__", "shape", "stride", "is_contiguous", "data_ptr", "bernoulli", "bernoulli_",
+                   "requires_grad_", "type", "is_floating_point", "is_complex", "element_size", "storage_offset", "get_device", "allclose", "equal"}
+
+
+class TorchRefuses(RuntimeError):
+    """The modelled precondition of a torch primitive fails: the real call raises RuntimeError."""
+
+
+def _any_rg(args, kwargs):
+    stack = list(args) + [v for k_, v in kwargs.items() if k_ != "out"]
+    while stack:
+        a = stack.pop()
+        if isinstance(a, (tuple, list)):
+            stack.extend(a)
+        elif getattr(a, "_rg", False):
+            return True
+    return False
+
+
 FRAME_VIOLATIONS = []      # (owner, primitive) for writes into frozen storages
 PRIMS_USED = {}            # primitive name -> call count
 ASSUMED = set()            # modelling assumptions actually exercised (strings)
@@ -128,7 +149,17 @@ class SymTensor(torch.Tensor):
             if isinstance(a, SymTensor) and a._stale:
                 raise Unmodelled("use of a tensor after an in-place shape change (%s)" % name)
         PRIMS_USED[name] = PRIMS_USED.get(name, 0) + 1
-        return h(*args, **kwargs)
+        # autograd bookkeeping (only when a lemma installs parameters that require grad): a result requires grad when
+        # autograd records and an operand does; torch refuses out= calls with such operands
+        rg = REQUIRES_GRAD[0] and torch.is_grad_enabled() and name not in _NO_GRAD_RESULT and _any_rg(args, kwargs)
+        if rg and kwargs.get("out") is not None:
+            raise TorchRefuses("%s(): functions with out=... arguments don't support automatic differentiation, but one of the arguments requires grad." % name)
+        res = h(*args, **kwargs)
+        if rg:
+            for r in (res if isinstance(res, (tuple, list)) else (res,)):
+                if isinstance(r, SymTensor):
+                    r._rg = True
+        return res
 
     def __repr__(self):
         return "SymTensor(shape=%s)" % (tuple(self._arr.shape),)
